@@ -6,7 +6,7 @@ open NutilsVerif NutilsVerif.Proto NutilsVerif.C10
 def parseOp (s : String) : Option Op :=
   match words s with
   | ["R"] => some .refined
-  | "B" :: rest => (rest.mapM (fun (w : String) => w.toNat?)).map .refinedBy
+  | "B" :: rest => (rest.mapM (fun (w : String) => w.toInt?)).map .refinedBy
   | _ => none
 
 def parseOps (s : String) : Option (List Op) :=
@@ -45,16 +45,20 @@ def handle (line : String) : String :=
     | some lo, some hi, some ops =>
       if lo.length != hi.length then "bad-request" else
       let d := lo.length
-      let cs := runFrom d (boxBases lo hi) ops
-      s!"ok|{cs.length}|{showCells d cs}|{summary d cs}"
+      match runFrom d (boxBases lo hi) ops with
+      | .ok cs => s!"ok|{cs.length}|{showCells d cs}|{summary d cs}"
+      | .error e => s!"err|{e}"
     | _, _, _ => "bad-request"
   | ["hand", lo, hi, opsA, opsB] =>
     match parseNats lo, parseNats hi, parseOps opsA, parseOps opsB with
     | some lo, some hi, some opsA, some opsB =>
       if lo.length != hi.length then "bad-request" else
       let d := lo.length
-      let cs := hand d (runFrom d (boxBases lo hi) opsA) (runFrom d (boxBases lo hi) opsB)
-      s!"ok|{cs.length}|{showCells d cs}|{summary d cs}"
+      match runFrom d (boxBases lo hi) opsA, runFrom d (boxBases lo hi) opsB with
+      | .ok A, .ok B =>
+        let cs := hand d A B
+        s!"ok|{cs.length}|{showCells d cs}|{summary d cs}"
+      | _, _ => "err|IndexError"
     | _, _, _, _ => "bad-request"
   | ["grid", shape, per, mask] =>
     match parseNats shape, parseNats per, parseNats mask with
